@@ -22,8 +22,8 @@ Qed.
 Example cast_sites_nonempty : cast_sites <> [].
 Proof. vm_compute. discriminate. Qed.
 Example inserted_float_cast_detected :
-  unreviewed (("functional/aggregation/sum.py", "_sum_update", "input.float()", 1) :: cast_sites)
-  = [("functional/aggregation/sum.py", "_sum_update", "input.float()", 1)].
+  unreviewed (("functional/aggregation/sum.py", "_sum_update", ".float()", 1) :: cast_sites)
+  = [("functional/aggregation/sum.py", "_sum_update", ".float()", 1)].
 Proof. vm_compute. reflexivity. Qed.
 
 Print Assumptions cast_translation_total.
